@@ -60,7 +60,8 @@ def save_npz(filename, matrix, compressed=True):
     elif type(matrix) is GCXS:
         nodes["indices"] = matrix.indices
         nodes["indptr"] = matrix.indptr
-        nodes["compressed_axes"] = matrix.compressed_axes
+        # `None` (fewer than two dimensions) would be stored as an object array, which `load_npz` cannot read
+        nodes["compressed_axes"] = () if matrix.compressed_axes is None else matrix.compressed_axes
 
     if compressed:
         np.savez_compressed(filename, **nodes)
@@ -120,6 +121,8 @@ def load_npz(filename):
             indices = fp["indices"]
             indptr = fp["indptr"]
             comp_axes = fp["compressed_axes"]
+            if comp_axes.size == 0:
+                comp_axes = None
             shape = tuple(fp["shape"])
             fill_value = fp["fill_value"][()]
             return GCXS(
